@@ -1,35 +1,15 @@
-/- GENERATED by tools/extract.py from parser/grammar.pest — do not edit. -/
-namespace Rooc.Gen
-/-- alternatives of the `keyword` rule (each followed by the boundary look-ahead `!(LETTER | NUMBER | "_")`) -/
-def keywords : List String := ["for", "min", "max", "where", "true", "false", "in", "as", "define", "let", "solve", "and", "or", "not", "implies", "iff", "xor"]
-/-- spellings of the operator rules: (rule, kind, text); kind `word` carries the boundary look-ahead -/
-def opSpellings : List (String × String × String) :=
-  [("mul", "sym", "*"),
-   ("add", "sym", "+"),
-   ("sub", "sym", "-"),
-   ("div", "sym", "/"),
-   ("neg", "sym", "-"),
-   ("and_op", "word", "and"),
-   ("and_op", "sym", "&&"),
-   ("or_op", "word", "or"),
-   ("or_op", "sym", "||"),
-   ("xor_op", "word", "xor"),
-   ("implies_op", "word", "implies"),
-   ("implies_op", "sym", "->"),
-   ("iff_op", "word", "iff"),
-   ("iff_op", "sym", "<->"),
-   ("not_op", "word", "not"),
-   ("not_op", "sym", "!")]
-/-- words of the `boolean` rule (case-sensitive, followed by the boundary look-ahead `!(LETTER | NUMBER | "_")`) -/
-def booleanWords : List String := ["true", "false"]
-/-- ordered alternatives of `binary_op` -/
-def binaryOpAlts : List String := ["mul", "add", "iff_op", "implies_op", "sub", "div", "or_op", "xor_op", "and_op"]
-/-- ordered alternatives of `unary_op` -/
-def unaryOpAlts : List String := ["neg", "not_op"]
-/-- ordered alternatives of `exp_leaf` -/
-def expLeafAlts : List String := ["block_scoped_function", "block_function", "function", "implicit_mul", "parenthesis", "array_access", "primitive", "variable"]
-/-- rule bodies whose shape the token-level model depends on: (rule, modifier, whitespace-normalised body) -/
-def ruleShapes : List (String × String × String) :=
+/-
+The grammar rules the lexer model (`Tok.lean`) and the parser models (`Parse.lean`, `Program.lean`) were WRITTEN FOR:
+a hand-kept copy of their shapes in grammar.pest.  `Gen.ruleShapes` is regenerated from grammar.pest by
+tools/extract.py before every check; when a rule there no longer has the shape recorded here, the models do not
+follow the grammar any more and the drivers of C09 / C11 answer `grammar-rule-changed <rule>` for every request, so
+that the correspondence breaks loudly.  (Not generated: update together with the models.)  Import-free.
+-/
+import Rooc.Gen.Grammar
+namespace Rooc.Syntax
+
+/-- (rule, modifier, whitespace-normalised body) of every rule the models encode -/
+def modelledRules : List (String × String × String) :=
   [("exp", "_", "unary_op? ~ exp_leaf ~ (binary_op ~ unary_op? ~ exp_leaf)*"),
    ("exp_leaf", "_", "block_scoped_function | block_function | function | implicit_mul | parenthesis | array_access | primitive | variable"),
    ("implicit_mul", "", "(number | parenthesis){2,} ~ variable? | (number | parenthesis) ~ variable"),
@@ -98,18 +78,34 @@ def ruleShapes : List (String × String × String) :=
    ("no_par", "@", "\"_\""),
    ("string", "$", "\"\\\"\" ~ inner_string ~ \"\\\"\""),
    ("nl", "_", "NEWLINE")]
-/-- `FromStr for BlockFunctionKind`: (spelling, `Display` of the kind) -/
-def blockKinds : List (String × String) := [("min", "min"), ("max", "max"), ("avg", "avg"), ("abs", "abs"), ("all", "all"), ("conjunction", "all"), ("any", "any"), ("disjunction", "any"), ("xor", "xor"), ("exclusive_disjunction", "xor")]
-/-- `FromStr for BlockScopedFunctionKind`: (spelling, `Display` of the kind) -/
-def scopedKinds : List (String × String) := [("sum", "sum"), ("prod", "prod"), ("min", "min"), ("max", "max"), ("avg", "avg"), ("all", "all"), ("conjunction", "all"), ("any", "any"), ("disjunction", "any"), ("xor", "xor"), ("exclusive_disjunction", "xor")]
-/-- `BlockFunctionKind::exact_arity` where it is `Some`: (`Display` of the kind, arity) -/
-def blockArity : List (String × Nat) := [("abs", 1)]
-/-- `FromStr for PreVariableType`: the type names that stand without arguments -/
-def plainTypeNames : List String := ["Boolean", "NonNegativeReal", "Real"]
-/-- `parse_as_assertion_type`: the type names that take `(min, max)` -/
-def argTypeNames : List String := ["IntegerRange", "NonNegativeReal", "Real"]
-/-- `FromStr for OptimizationType`: (spelling, variant) -/
-def objectiveKinds : List (String × String) := [("min", "Min"), ("max", "Max"), ("solve", "Satisfy")]
-/-- `FromStr for Comparison`: (spelling, variant) -/
-def comparisonKinds : List (String × String) := [("<=", "LessOrEqual"), (">=", "GreaterOrEqual"), ("=", "Equal"), ("<", "Less"), (">", "Greater")]
-end Rooc.Gen
+
+/-- the tables the models read from `Rooc/Gen/Grammar.lean`, as they were when the models were written -/
+def modelledTables : Bool :=
+  Gen.keywords == ["for", "min", "max", "where", "true", "false", "in", "as", "define", "let", "solve", "and", "or", "not",
+      "implies", "iff", "xor"]
+  && Gen.opSpellings == [("mul", "sym", "*"), ("add", "sym", "+"), ("sub", "sym", "-"), ("div", "sym", "/"), ("neg", "sym", "-"),
+      ("and_op", "word", "and"), ("and_op", "sym", "&&"), ("or_op", "word", "or"), ("or_op", "sym", "||"),
+      ("xor_op", "word", "xor"), ("implies_op", "word", "implies"), ("implies_op", "sym", "->"),
+      ("iff_op", "word", "iff"), ("iff_op", "sym", "<->"), ("not_op", "word", "not"), ("not_op", "sym", "!")]
+  && Gen.binaryOpAlts == ["mul", "add", "iff_op", "implies_op", "sub", "div", "or_op", "xor_op", "and_op"]
+  && Gen.unaryOpAlts == ["neg", "not_op"]
+  && Gen.booleanWords == ["true", "false"]
+  && Gen.expLeafAlts == ["block_scoped_function", "block_function", "function", "implicit_mul", "parenthesis", "array_access",
+      "primitive", "variable"]
+  && Gen.blockKinds == [("min", "min"), ("max", "max"), ("avg", "avg"), ("abs", "abs"), ("all", "all"), ("conjunction", "all"),
+      ("any", "any"), ("disjunction", "any"), ("xor", "xor"), ("exclusive_disjunction", "xor")]
+  && Gen.scopedKinds == [("sum", "sum"), ("prod", "prod"), ("min", "min"), ("max", "max"), ("avg", "avg"), ("all", "all"),
+      ("conjunction", "all"), ("any", "any"), ("disjunction", "any"), ("xor", "xor"), ("exclusive_disjunction", "xor")]
+  && Gen.blockArity == [("abs", 1)]
+  && Gen.plainTypeNames == ["Boolean", "NonNegativeReal", "Real"]
+  && Gen.argTypeNames == ["IntegerRange", "NonNegativeReal", "Real"]
+  && Gen.objectiveKinds == [("min", "Min"), ("max", "Max"), ("solve", "Satisfy")]
+  && Gen.comparisonKinds == [("<=", "LessOrEqual"), (">=", "GreaterOrEqual"), ("=", "Equal"), ("<", "Less"), (">", "Greater")]
+
+/-- the first rule whose extracted shape is not the modelled one (`tables`: one of the extracted tables changed) -/
+def grammarDrift : Option String :=
+  match modelledRules.find? (fun r => !(Gen.ruleShapes.contains r)) with
+  | some r => some r.1
+  | none => if modelledTables then none else some "tables"
+
+end Rooc.Syntax
